@@ -113,6 +113,9 @@ func c16Sweep(c *h.Ctx, ops []c16Op) {
 				det["what"] = ch
 				c.Violation("argument byte slices are unchanged after the call, within their length and in the spare capacity behind them", det)
 			}
+			if r := string(res); r == "key-mutated" || r == "bigint-argument-mutated" {
+				c.Violation("arguments that are not byte slices (keys, big integers) are unchanged after the call", det)
+			}
 			if !op.det && len(res) > 3 {
 				res = res[:0]
 			}
@@ -600,6 +603,7 @@ func runC16(c *h.Ctx) {
 		}},
 	}
 	c16Sweep(c, ops)
+	c16Comparisons(c)
 
 	// ---- decoders on truncated encodings whose spare capacity holds the continuation ---------------------------------------
 	verdict := func(ok bool, m func() []byte) []byte {
